@@ -565,7 +565,7 @@ func (e *Engine) solveFile(o *Obl, file string) {
 			finish("discharged", "z3-new(qf)", "")
 			return
 		case "sat":
-			os.WriteFile(file, []byte(strings.Join(keep, "\n")), 0o644)
+			o.Model = qf
 			finish("failed", "z3-new(qf)", "sat (candidate model after dropping quantified hypotheses; "+strings.Join(details, " ")+")")
 			return
 		}
